@@ -60,6 +60,34 @@ func ruleSignCut(c *Ctx) {
 							if cal := x.Call.StaticCallee(); cal != nil && cal.Pkg != nil && cal.Pkg.Pkg.Path() == "strings" && (cal.Name() == "HasPrefix" || cal.Name() == "ContainsRune" || cal.Name() == "IndexByte" || cal.Name() == "IndexAny") && len(x.Call.Args) > 0 && x.Call.Args[0] == sl.X {
 								looked = true
 							}
+							// a predicate of the module that is handed the text and looks at its first byte
+							// (`hasLeadingSign(qty)`)
+							if cal := x.Call.StaticCallee(); cal != nil && inModule(cal) && cal.Blocks != nil {
+								for i, a := range x.Call.Args {
+									if a != sl.X || i >= len(cal.Params) {
+										continue
+									}
+									p := cal.Params[i]
+									for _, cb := range cal.Blocks {
+										for _, ci := range cb.Instrs {
+											switch y := ci.(type) {
+											case *ssa.Index:
+												if k, ok := y.Index.(*ssa.Const); ok && k.Value != nil && k.Value.Kind() == constant.Int && k.Int64() == 0 && y.X == ssa.Value(p) {
+													looked = true
+												}
+											case *ssa.Lookup:
+												if k, ok := y.Index.(*ssa.Const); ok && k.Value != nil && k.Value.Kind() == constant.Int && k.Int64() == 0 && y.X == ssa.Value(p) {
+													looked = true
+												}
+											case *ssa.Call:
+												if c2 := y.Call.StaticCallee(); c2 != nil && c2.Pkg != nil && c2.Pkg.Pkg.Path() == "strings" && c2.Name() == "HasPrefix" && len(y.Call.Args) > 0 && y.Call.Args[0] == ssa.Value(p) {
+													looked = true
+												}
+											}
+										}
+									}
+								}
+							}
 						}
 					}
 				}
